@@ -8,6 +8,7 @@
 #include <cfloat>
 #include <cmath>
 #include <string>
+#include <vector>
 #include "early_fork.h"
 // REDUCED: second build with -funsigned-char runs a fraction of the workload
 #ifdef C12_REDUCED
@@ -672,7 +673,8 @@ static void judge_literal(const std::string &S)
         }
         // ---- value
         bool f32 = en == E_ATOF32;
-        double want = f32 ? to_f32(ref) : ref;
+        // float entry point: glibc strtof of the same prefix (no double rounding); the others: strtod
+        double want = f32 ? (double)strtof(prefix.c_str(), nullptr) : ref;
         bool ok;
         double errulps = 0;
         if (std::isinf(want))
@@ -680,8 +682,8 @@ static void judge_literal(const std::string &S)
                  (std::isfinite(got) && f32 && fabs(got) >= (double)FLT_MAX - (4 + steps) * ulp32(FLT_MAX));
         else if (std::isnan(got))
             ok = false;
-        else if (std::isinf(got))
-            ok = (got > 0) == (want > 0) && fabs(want) >= (f32 ? (double)FLT_MAX - (4 + steps) * ulp32(FLT_MAX) : DBL_MAX - (4 + steps) * ulp64(DBL_MAX));
+        else if (std::isinf(got)) // the float result is a plain narrowing of the double: it must be finite whenever strtof's is
+            ok = !f32 && (got > 0) == (want > 0) && fabs(want) >= DBL_MAX - (4 + steps) * ulp64(DBL_MAX);
         else
         {
             double u = f32 ? ulp32(fabs(want)) : ulp64(fabs(want));
@@ -691,7 +693,7 @@ static void judge_literal(const std::string &S)
         if (!ok)
         {
             snprintf(key, sizeof key, "parse:%s:value:%s", ENAME[en], vcls);
-            vf::fail(key, "text=\"%s\" got=%.17g (%a) glibc strtod=%.17g (%a) error=%.1f ulp, allowed %ld", vf::esc(S.data(), S.size()).c_str(), got, got,
+            vf::fail(key, "text=\"%s\" got=%.17g (%a) glibc (strtod; strtof for atof32)=%.17g (%a) error=%.1f ulp, allowed %ld", vf::esc(S.data(), S.size()).c_str(), got, got,
                      want, want, errulps, 4 + steps);
         }
         VF_MAX("parse: max error / allowed (4 + steps) ulp, ppm", (uint64_t)(errulps / (4 + steps) * 1e6));
@@ -770,6 +772,87 @@ static void gram_run(uint64_t c)
     }
 }
 VF_SUITE(parse_grammar, gram_count, gram_run)
+
+// (d2) range and exactness boundaries: exact and shortest-round-trip spellings of FLT_MAX, FLT_MIN, FLT_TRUE_MIN, DBL_MAX,
+//      DBL_MIN, DBL_TRUE_MIN, values a little above / below the binary32 and binary64 overflow midpoints, 2^24+-1, 2^53+-1,
+//      powers of ten at the exactness limits, and the largest-magnitude floats / doubles printed with %.9g / %.17g.
+static std::string fmt(const char *f, double v)
+{
+    char b[420];
+    snprintf(b, sizeof b, f, v);
+    return b;
+}
+static uint64_t bound_count() { return 4 + (vf::thorough() ? 400 : 40); }
+static void bound_run(uint64_t c)
+{
+    std::vector<std::string> L;
+    if (c == 0)
+    {
+        const double F[] = {(double)FLT_MAX, (double)FLT_MIN, 0x1p-149, (double)nextafterf(FLT_MAX, 0), (double)nextafterf(FLT_MIN, 0), (double)nextafterf(FLT_MIN, 1),
+                            0x1p-148, 0x1.8p-149, 16777215.0, 16777216.0, 16777217.0, 33554431.0, 1e10, 1e22, 1e23};
+        for (double v : F)
+            for (const char *f : {"%.9g", "%.8g", "%.17g", "%.0f", "%.60f", "%.12e"})
+            {
+                std::string t = fmt(f, v);
+                if (t.size() <= 330)
+                    L.push_back(t), L.push_back("-" + t);
+            }
+        for (const char *t : {"3.4028235e38", "3.40282347e+38", "3.4028234e38", "3.4028234663852886e38", "340282346638528859811704183484516925440", "1.17549435e-38",
+                              "1.1754944e-38", "1.4e-45", "1e-45", "1.40129846e-45", "7e-46", "7.1e-46", "0.7e-45"})
+            L.push_back(t), L.push_back(std::string("-") + t), L.push_back(std::string(t) + "x");
+    }
+    else if (c == 1)
+    {
+        // around the binary32 overflow midpoint 2^128 - 2^103: a 2^-32 relative step below -> FLT_MAX, above -> infinity
+        const double MID = 0x1.ffffffp127;
+        for (double v : {MID * (1 - 0x1p-32), MID * (1 + 0x1p-32), MID * (1 - 0x1p-26), MID * (1 + 0x1p-26), 3.4028236e38, 3.4028237e38, 3.5e38, 1e39, 6.8e38})
+            for (const char *f : {"%.17g", "%.20g", "%.0f"})
+                L.push_back(fmt(f, v)), L.push_back("-" + fmt(f, v));
+        for (const char *t : {"3.4028235677973366e38", "3.4028235677973362e38", "3.402823567797337e38", "3.4028236e38", "3.4028235e+38", "34028235e31", "0.34028235e39",
+                              "340282350000000000000000000000000000000", "340282356000000000000000000000000000000.0", "3.4028235e0038"})
+            L.push_back(t), L.push_back(std::string("-") + t);
+    }
+    else if (c == 2)
+    {
+        const double D[] = {DBL_MAX, DBL_MIN, 0x1p-1074, nextafter(DBL_MAX, 0), nextafter(DBL_MIN, 0), nextafter(DBL_MIN, 1), 0x1p-1073, 9007199254740991.0,
+                            9007199254740992.0, 9007199254740993.0, 18014398509481983.0, 1e22, 1e23, 1e15, 1e16, 0x1p63, 0x1p64};
+        for (double v : D)
+            for (const char *f : {"%.17g", "%.16g", "%.15g", "%.20e"})
+                L.push_back(fmt(f, v)), L.push_back("-" + fmt(f, v));
+        for (const char *t : {"1.7976931348623157e308", "1.7976931348623158e308", "1.797693134862315e308", "17976931348623157e292", "2.2250738585072014e-308",
+                              "2.2250738585072011e-308", "4.9406564584124654e-324", "5e-324", "4.9e-324", "2e-324", "3e-324", "2.4703282292062328e-324", "1.8e308", "2e308",
+                              "1e309", "9007199254740993", "9007199254740992.5", "16777217", "16777216.5", "1e22", "1e23", "10000000000", "1e10"})
+            L.push_back(t), L.push_back(std::string("-") + t);
+    }
+    else if (c == 3)
+    {
+        // %.0f / %.330f spellings (long digit strings) of the double limits are outside the <= 40 mantissa digits the workload
+        // promises; the float ones (<= 39 integer digits) are inside
+        for (double v : {(double)FLT_MAX, (double)nextafterf(FLT_MAX, 0), 0x1p127, 0x1p126, 1e38, 3e38})
+            L.push_back(fmt("%.0f", v)), L.push_back("-" + fmt("%.0f", v)), L.push_back(fmt("%.1f", v));
+    }
+    else
+    {
+        // round trip of the largest-magnitude (and smallest normal / subnormal) floats and doubles through %.9g / %.17g
+        vf::Rng r(vf::seed(), 0xC12D, c);
+        for (int i = 0; i < 50; i++)
+        {
+            uint32_t e = r.chance(2, 3) ? 254 - (uint32_t)r.below(3) : (uint32_t)r.below(3);
+            uint32_t m = r.chance(1, 3) ? 0x7fffff - (uint32_t)r.below(4) : r.chance(1, 2) ? (uint32_t)r.below(4) : (uint32_t)r.next() & 0x7fffff;
+            float f = f32_of((uint32_t)(r.below(2) << 31) | e << 23 | m);
+            L.push_back(fmt("%.9g", (double)f));
+            uint64_t de = r.chance(2, 3) ? 2046 - r.below(3) : r.below(3);
+            uint64_t dm = r.chance(1, 3) ? 0xfffffffffffffull - r.below(4) : r.chance(1, 2) ? r.below(4) : r.next() & 0xfffffffffffffull;
+            L.push_back(fmt("%.17g", f64_of(r.below(2) << 63 | de << 52 | dm)));
+        }
+    }
+    for (const std::string &t : L)
+        judge_literal(t);
+    VF_OKN("parse: range / exactness boundary literals (FLT_MAX, FLT_MIN, DBL_MAX, midpoints, 2^24+-1, 2^53+-1, %.9g / %.17g round trips)", L.size());
+    if (c == 0)
+        vf::sample("boundary literals: \"3.4028235e38\", \"3.40282347e+38\", \"1.17549435e-38\", \"1.4e-45\", \"16777217\" ... all five entry points");
+}
+VF_SUITE(parse_boundaries, bound_count, bound_run)
 
 // (e) random literals
 static std::string digits(vf::Rng &r, int n)
@@ -932,6 +1015,7 @@ extern "C" void vf_setup()
                           "parse: literal with a positive exponent", "parse: literal with a fraction", "parse: negative literal",
                           "parse: dangling e/E after the literal is not consumed",
                           "parse: text without a mantissa digit: *end written and inside the text",
+                          "parse: range / exactness boundary literals (FLT_MAX, FLT_MIN, DBL_MAX, midpoints, 2^24+-1, 2^53+-1, %.9g / %.17g round trips)",
                           "converters called during static initialisation of an earlier-linked TU are within the same tolerances",
                           "round trip: igris_f32toa text is read back by every parser like glibc reads it"})
         vf::require(c);
